@@ -86,7 +86,7 @@ def run(ctx):
             ctx.violation(key, detail + " | run seed %d" % out["seed"], {"world": "trace", "seed": out["seed"], "key": key})
     n_skipped = sum(1 for o in res if o["skipped"])
     if n_skipped > 0.25 * len(res):
-        raise runner.HarnessError("%d of %d simulated runs raised; trace entries cannot be judged (see C19)" % (n_skipped, len(res)))
+        ctx.cannot_judge("%d of %d simulated runs raised; trace entries cannot be judged (see C19)" % (n_skipped, len(res)))
     ctx.cov["evaluations"] += len(res)
     ctx.cov["distinct_nontrivial"] += len(sig)
     ctx.cov["trace_entries_checked"] = entries
